@@ -614,7 +614,7 @@ def check_nonfinite_fields(ctx):
     """inf / nan passed as a relative field.  What the property needs: either the constructor rejects the value
     (as it must for years/months: ValueError) or the object it returns is a well-behaved value (normal form, d == d)."""
     from dateutil.relativedelta import relativedelta
-    for fld in ("years", "months", "days", "weeks", "hours", "minutes", "seconds", "microseconds"):
+    for fld in ("years", "months", "days", "leapdays", "weeks", "hours", "minutes", "seconds", "microseconds"):
         for v in (INF, -INF, NAN):
             case = {"law": "nonfinite_field", "field": fld, "value": repr(v)}
             ctx.case(("nonfinite", fld, repr(v)), nontrivial=False); ctx.count("nonfinite_field_cases")
@@ -635,19 +635,7 @@ def check_nonfinite_fields(ctx):
                 ctx.count("nonfinite_accepted_wellbehaved")
 
 
-def _nonfinite_known(v):
-    """D-C16-nonfinite, on the OBSERVED outcome: years/months = +-inf raise OverflowError (instead of ValueError);
-    hours..microseconds = +-inf and days..microseconds / weeks = nan are accepted and leave NaN fields."""
-    c = v["case"]
-    if c.get("law") != "nonfinite_field":
-        return False
-    fld, val, out = c.get("field"), c.get("value"), c.get("outcome", "")
-    if fld in ("years", "months"):
-        return val in ("inf", "-inf") and out == "raised:OverflowError"
-    return out.startswith("accepted:") and "nan" in out
-
-
-KNOWN = {"D-C16-nonfinite": _nonfinite_known}
+KNOWN = {}     # D-C16-nonfinite was repaired in /repo (known_findings.d/00-fixed.json); check_nonfinite_fields reports it again
 
 
 def replay(ctx, payload):
